@@ -432,7 +432,7 @@ fn dyn_session(out: &mut CaseOut, suite: SuiteId, mode: Mode, tag: u64, seed: u6
     let (enc_ref, mut c) = match r1_setup_s(suite, &m, &k.pk_r, &info, &k.ikm_e) {
         Some(x) => x,
         None => {
-            out.fail("R1 setup failed");
+            out.fail_machinery("R1 setup failed");
             return;
         }
     };
@@ -848,7 +848,7 @@ impl Part for E3b {
                 break;
             }
             if r.trace.is_empty() {
-                out.fail(format!("{}: no scheduling point fired - the hooks are compiled out or not reached (machinery)", sc.name));
+                out.fail_machinery(format!("{}: no scheduling point fired - the hooks are compiled out or not reached", sc.name));
                 break;
             }
             max_points = max_points.max(r.choices.len());
